@@ -301,6 +301,21 @@ impl<'a> LuaGen<'a> {
     }
     pub fn program(&mut self) -> String {
         let mut out = String::new();
+        // uses of a name before the outermost-block statement that makes it a global of the file: every kind
+        // of early use (function-name statements included) must be resolved by the later hoist
+        let late_global = if self.r.chance(1, 5) { Some(self.name()) } else { None };
+        if let Some(g) = &late_global {
+            self.bump("late_global");
+            let early = match self.r.below(6) {
+                0 => format!("function {g}.early() end\n"),
+                1 => format!("function {g}:early() end\n"),
+                2 => format!("local function _e()\n  function {g}.early(x) return x end\nend\n"),
+                3 => format!("local function _e()\n  function {g}:early() return self end\n  return {g}\nend\n"),
+                4 => format!("local function _e()\n  {g}.field = 1\n  {g}[1] = {g}\nend\n"),
+                _ => format!("local _e = function() return {g}, {g}.x, {g}() end\n"),
+            };
+            out.push_str(&early);
+        }
         let top = 1 + self.r.below(6);
         for _ in 0..top {
             if self.budget == 0 {
@@ -308,6 +323,13 @@ impl<'a> LuaGen<'a> {
             }
             self.budget -= 1;
             out.push_str(&self.stmt(self.max_depth, 0));
+        }
+        if let Some(g) = &late_global {
+            if self.r.chance(1, 2) {
+                out.push_str(&format!("{g} = {{}}\n"));
+            } else {
+                out.push_str(&format!("function {g}() end\n"));
+            }
         }
         if self.r.chance(1, 5) {
             out.push_str(&format!("return {}\n", self.expr(2)));
